@@ -25,11 +25,13 @@ Theorem readcache_readfallback_get_only_if_held : forall r d s s1,
 Proof. exact cget_sound. Qed.
 Print Assumptions readcache_readfallback_get_only_if_held.
 
-(** "iff" when no backend call fails, with the copying replicator (or the
-    non-copying one): held => returned, not held => NOT_FOUND. *)
-Theorem readcache_readfallback_iff : forall r d s, (r = RLocal \/ r = RNoop) -> fl s = [] ->
+(** "iff" when no backend call fails, for every copying replicator stack
+    (local, under any nesting of deduplicating / concurrency-limiting
+    decorators) and for the non-copying one: held => returned, not held =>
+    NOT_FOUND. *)
+Theorem readcache_readfallback_iff : forall r d s, (copying r = true \/ r = RNoop) -> fl s = [] ->
   fst (cget r d s) = if memb d (sa s) || memb d (sb s) then 0 else 5.
-Proof. exact cget_complete. Qed.
+Proof. exact cget_complete_copying. Qed.
 Print Assumptions readcache_readfallback_iff.
 
 (** Uploads go to the slow (read caching) respectively primary (fallback)
